@@ -96,7 +96,7 @@ def gen_case(rng, index, tier):
         kind = 'nested'
     nprocs = rng.choice([2, 2, 2, 3, 3, 3, 4, 4, 5] + ([6, 7] if tier == 'thorough' else []))
     gran = 'line' if rng.random() < 0.3 else 'sync'
-    case = dict(kind=kind, prog=prog, nprocs=nprocs, compile_procs=rng.choice([2, nprocs, nprocs, 7]), gran=gran,
+    case = dict(kind=kind, prog=prog, nprocs=nprocs, compile_procs=rng.choice([2, nprocs, nprocs, 7, 1]), gran=gran,
                 sched=gen_sched(rng), faults=[], cfg=dict(cache=rng.random() < 0.7, twice=rng.random() < 0.3))
     if rng.random() < (0.10 if tier == 'thorough' else 0.04) and kind in ('expr', 'locate'):
         # kill-point sweep on a small instance
